@@ -1388,5 +1388,7 @@ META = {
     "trusted_base": ["z3 5.1 / cvc5", "pyvc symbolic executor",
                      "dependency spec: int(x) raises only TypeError/ValueError/OverflowError, int(str, base) only TypeError/ValueError, float(x) only TypeError/ValueError/OverflowError (ValueError for str)",
                      "dependency spec: str.rsplit(sep, 1) splits at the last separator", "dependency spec: str slicing / concatenation / length (SMT string theory)",
+                     "dependency spec: round(x, n) has the type of x; true division and float() give floats; math.ceil/math.floor raise on inf/nan",
+                     "dependency spec: Markup combinators escape plain operands, len(escape(x)) >= len(x) (C23.indent.escaping_consistent, C23.truncate.mixed)",
                      "executable specifications of the bounded stand-ins (this module)", "urllib.parse.unquote / parse_qsl, fractions, re (oracles of the stand-ins)"],
 }
